@@ -4,7 +4,7 @@
    q over all quirk vectors; the renderers are the interpretation of the dict literals / f-strings that the
    translator found in src/core/cli_utils.py and src/formatters/sarif.py (Gen/OutputGen.v). *)
 From TL Require Import Lib.Base Model.OutputTypes Gen.OutputGen Model.Output Model.OutputBytes Actual.OutputActual
-     Proofs.OutputStr Proofs.OutputJson Proofs.OutputText Proofs.OutputSan Proofs.OutputMain Proofs.OutputBytes Proofs.OutputBytesDoc.
+     Proofs.OutputStr Proofs.OutputJson Proofs.OutputText Proofs.OutputSan Proofs.OutputMain Proofs.OutputBytesArgs Proofs.OutputBytes Proofs.OutputBytesDoc.
 From Coq Require Import ZArith.
 Local Open Scope Z_scope.
 Local Open Scope string_scope.
